@@ -126,3 +126,47 @@ func (w *vfWorld) lockFreeName(name string) bool {
 	}
 	return ok
 }
+
+// VF_C16_Abandoned (C16, C12; interleaving): the caller of a push-pull gives up
+// (its context is cancelled: client disconnect, deadline) at an arbitrary moment
+// while the request is being processed.  Whatever the moment, the server stays
+// usable: the handler does not stay blocked holding the per-key lock, so a
+// following request for the same key is served, not refused for want of the
+// lock, and the log invariants hold.
+func VF_C16_Abandoned() {
+	vf.Preemptions(2)
+	vf.NoSlowHolders()
+	w := vfNewWorld()
+	w.seedCollection(vfCol, 1)
+	w.seedClient(vfCUIDx, 1, model.ClientType_PERSISTENT)
+	w.seedClient(vfCUIDy, 1, model.ClientType_PERSISTENT)
+	d := w.seedDatatype(vfDUID, vfKey, 1, model.TypeOfDatatype_COUNTER, 1)
+	w.seedOp(vfDUID, 1, 1, vfCUIDx, 1)
+	subscribe(d, vfCUIDx, 1, 1)
+	subscribe(d, vfCUIDy, 1, 0)
+	ctx, cancel := vf.WithCancel(gocontext.Background())
+	done := make(chan int, 2)
+	go func() {
+		_, _ = w.pushPullCtx(ctx, vfCol, vfCUIDx, &model.PushPullPack{Key: vfKey, DUID: vfDUID, Type: model.TypeOfDatatype_COUNTER,
+			CheckPoint: &model.CheckPoint{Sseq: 1, Cseq: 2}, Operations: []*model.Operation{vfIncOp(vfCUIDx, 2, 2)}})
+		done <- 1
+	}()
+	go func() {
+		vf.Yield()
+		cancel()
+		done <- 2
+	}()
+	<-done
+	<-done
+	vf.Quiesce()
+	vf.Reach("abandoned")
+	vf.Assert(w.logInvariant(vfDUID), "C06 the log invariants hold whatever became of the abandoned request")
+	// the next request for the same key, by another client
+	r, e := w.pushPullCtx(gocontext.Background(), vfCol, vfCUIDy, &model.PushPullPack{Key: vfKey, DUID: vfDUID, Type: model.TypeOfDatatype_COUNTER,
+		CheckPoint: &model.CheckPoint{Sseq: 1, Cseq: 1}, Operations: []*model.Operation{vfIncOp(vfCUIDy, 1, 3)}})
+	vf.Assert(e == nil && r != nil, "C16 the next request is answered")
+	vf.Assert(!hasErrBit(r), "C16/C12 an abandoned request does not leave the key locked: the next request is served")
+	vf.Quiesce()
+	vf.Assert(w.lockFree(1, vfKey), "C12 the per-key lock is free afterwards")
+	vf.Assert(w.logInvariant(vfDUID), "C06 log invariant")
+}
